@@ -116,9 +116,13 @@ Definition hslots_ok (rec : hmsg -> bool) (complete : bool) (nunions : nat) : li
     | _, _ => false
     end.
 
-(* storage of oneof group g: owns nothing, or selects a member of the group and is a cell of that member *)
+(* not a static default pointer *)
+Definition no_def (v : hval) : bool := match v with HStr PDef | HBytes _ PDef => false | _ => true end.
+
+(* storage of oneof group g: owns nothing (and is not a default pointer: whatever member the case word names,
+   free_unpacked then has nothing to free), or selects a member of the group and is a cell of that member *)
 Definition hunion_ok (rec : hmsg -> bool) (fs : list field) (g : nat) (cv : Z * hval) : bool :=
-  owns_nothing (snd cv) ||
+  (owns_nothing (snd cv) && no_def (snd cv)) ||
   existsb (fun f => (f_id f =? fst cv) && in_group f g && f_oneof f && hcell_ok rec f (snd cv)) fs.
 
 Definition hunions_ok (rec : hmsg -> bool) (fs : list field) : nat -> list (Z * hval) -> bool :=
